@@ -16,7 +16,7 @@ use rustfft::FftDirection;
 use serde_json::json;
 use std::collections::HashMap;
 
-pub const POOLS: [&[usize]; 7] = [
+pub const POOLS: [&[usize]; 9] = [
     // 2^a 3^b chain of 3456 with Rader primes whose inner lengths lie on it
     &[12, 36, 72, 144, 288, 576, 1152, 3456, 37, 73, 577, 1153],
     // powers of two, Fermat primes (Rader over 2^k), a Bluestein prime
@@ -32,6 +32,10 @@ pub const POOLS: [&[usize]; 7] = [
     &[59, 118, 117, 119, 120, 121, 122, 124, 125, 126, 127, 128],
     // the same for 83 (165..256 sampled: smooth, prime and power-of-two candidates), plus large powers of two
     &[83, 166, 165, 168, 176, 180, 192, 200, 216, 243, 256, 4096],
+    // divisor lattices of numbers whose prime factors are all >= 11 (the planners' generic mixed-radix path): a length is
+    // requested after some of its own factors / co-factors were planned, and the other way round
+    &[11, 13, 37, 121, 143, 407, 481, 1331, 1573, 4477, 5291, 58201],
+    &[41, 43, 47, 53, 1681, 1763, 1927, 2021, 2173, 2279, 2491, 75809],
 ];
 
 type Req = (usize, FftDirection);
